@@ -2,6 +2,7 @@ package props
 
 import (
 	"bytes"
+	"crypto/ecdh"
 	"fmt"
 	"strings"
 	"testing"
@@ -46,6 +47,12 @@ func c09CheckKey(c c09Key, st *stats.Run) error {
 	if r.String() != recStr {
 		return pbt.Failf("C09/print-parse", "recipient prints as %s, parsed from %s", r.String(), recStr)
 	}
+	// the plugin package's encoder for native recipients (crypto/ecdh keys)
+	if pk, err := ecdh.X25519().NewPublicKey(refage.X25519Public(c.Scalar)); err == nil {
+		if enc, err := plugin.EncodeX25519Recipient(pk); err != nil || enc != recStr {
+			return pbt.Failf("C09/print-parse", "plugin.EncodeX25519Recipient gives %q (%v), the recipient string is %q", enc, err, recStr)
+		}
+	}
 	return nil
 }
 
@@ -72,9 +79,16 @@ func c09CheckPlugin(c c09Plugin, st *stats.Run) error {
 	if is != wantI {
 		return pbt.Failf("C09/print-parse", "EncodeIdentity(%q) = %q, reference %q", c.Name, is, wantI)
 	}
+	dRecipient := d
 	n, d, err = plugin.ParseIdentity(is)
 	if err != nil || n != lower || !bytes.Equal(d, c.Data) {
 		return pbt.Failf("C09/print-parse", "ParseIdentity(EncodeIdentity(%q, %x)) = (%q, %x, %v)", c.Name, c.Data, n, d, err)
+	}
+	// parse something else, then look at the earlier results again: a parsed key does not change
+	plugin.ParseRecipient(refage.Bech32Encode("age1other", hx.PRG(77, len(c.Data))))
+	bech32.Decode(refage.Bech32Encode("zz", hx.PRG(78, len(c.Data))))
+	if !bytes.Equal(dRecipient, c.Data) || !bytes.Equal(d, c.Data) {
+		return pbt.Failf("C09/parsed-key-changed", "the payload returned by an earlier Parse call changed after later Parse calls (%x / %x, want %x)", dRecipient, d, c.Data)
 	}
 	return nil
 }
@@ -143,7 +157,7 @@ func c09CheckStr(c c09Str, st *stats.Run) error {
 		}
 	}
 	if c.MustReject {
-		allClasses := map[string]bool{"case-mixed": true, "case-parts": true, "pad-nonzero": true, "plugin-surplus": true, "non-ascii": true, "confusable": true, "whitespace": true}
+		allClasses := map[string]bool{"bech32m": true, "case-mixed": true, "case-parts": true, "pad-nonzero": true, "plugin-surplus": true, "non-ascii": true, "confusable": true, "whitespace": true}
 		if acceptedNative != "" {
 			return pbt.Failf("C09/malformed-accepted", "%s accepts %q, a string of class %q that must be rejected", acceptedNative, s, c.Class)
 		}
@@ -176,11 +190,14 @@ func c09Malformed(t *rapid.T) c09Str {
 	if isID {
 		hrpLower = "age-secret-key-"
 	}
-	class := rapid.SampledFrom([]string{"case-whole", "case-mixed", "case-parts", "hrp-other", "len31", "len33", "len-other", "pad-nonzero", "surplus-group", "non-ascii", "confusable", "whitespace", "plugin-surplus", "valid"}).Draw(t, "class")
+	class := rapid.SampledFrom([]string{"case-whole", "case-mixed", "case-parts", "hrp-other", "len31", "len33", "len-other", "pad-nonzero", "surplus-group", "non-ascii", "confusable", "whitespace", "plugin-surplus", "bech32m", "valid"}).Draw(t, "class")
 	c := c09Str{Class: class, MustReject: true, Native: true}
 	switch class {
 	case "valid":
 		c.S, c.MustReject = base, false
+	case "bech32m":
+		// the same key with a Bech32m (BIP-350) checksum: a second spelling
+		c.S = refage.Bech32EncodeGroupsConst(hrpLower, refage.To5(scalar), isID, 0x2bc830a3)
 	case "case-whole":
 		if isID {
 			c.S = strings.ToLower(base)
